@@ -1183,6 +1183,160 @@ fn ctap_prf_out(v: &AuthenticatorPrfValues) -> (Vec<u8>, Option<Vec<u8>>) {
     (v.first.to_vec(), v.second.map(|b| b.to_vec()))
 }
 
+fn build_ga_request(s: &GaSpec, op: &Op, creds: &[ModelCred], resolved: &mut Resolved) -> ctap2::get_assertion::Request {
+    let allow = s.allow.as_ref().map(|l| l.iter().map(|r| resolve_id(r, creds, &s.rp_id)).collect::<Vec<_>>());
+    resolved.allow = allow.clone();
+    let extensions = ctap2::get_assertion::ExtensionInputs {
+        hmac_secret: None,
+        prf: s.prf.as_ref().map(|p| ctap_prf(p, creds, &s.rp_id, &mut resolved.ctap_by_cred)),
+    }
+    .zip_contents();
+    ctap2::get_assertion::Request {
+        rp_id: s.rp_id.clone(),
+        client_data_hash: s.cdh.clone().into(),
+        allow_list: allow.as_ref().map(|l| descriptors(l, &op.unknown_type, &op.list_transports)),
+        extensions,
+        options: ctap2::get_assertion::Options { rk: s.rk, up: s.up, uv: s.uv },
+        pin_auth: s.pin_auth.then(|| if s.pin_empty { Vec::new() } else { vec![1u8; 16] }.into()),
+        pin_protocol: s.pin_auth.then_some(1),
+    }
+}
+
+fn ga_result(res: Cancellable<Result<ctap2::get_assertion::Response, StatusCode>>) -> OpResult {
+    match res {
+        Cancellable::Cancelled(k) => OpResult::Cancelled(k),
+        Cancellable::Finished(Err(e)) => OpResult::Ga(Err(serr(e))),
+        Cancellable::Finished(Ok(r)) => OpResult::Ga(Ok(GaOut {
+            cred_id: r.credential.as_ref().map(|c| c.id.to_vec()),
+            auth_data: r.auth_data.to_vec(),
+            signature: r.signature.to_vec(),
+            user_id: r.user.as_ref().map(|u| u.id.to_vec()),
+            prf_results: r.unsigned_extension_outputs.as_ref().and_then(|u| u.prf.as_ref()).map(|p| ctap_prf_out(&p.results)),
+            renders: render(&r),
+        })),
+    }
+}
+
+// ------------------------------------------------------------------ a store with its own item type
+
+/// What a store with a caller-defined item type hands back: the conversion into a passkey is fallible.
+#[derive(Clone)]
+pub struct SimItem {
+    pub pk: Passkey,
+    pub broken: bool,
+}
+
+impl TryFrom<SimItem> for Passkey {
+    type Error = ();
+    fn try_from(i: SimItem) -> Result<Passkey, ()> {
+        if i.broken {
+            Err(())
+        } else {
+            Ok(i.pk)
+        }
+    }
+}
+
+/// The store seam behind an item type of its own (bare topology only: the shipped lock wrappers are
+/// written for stores whose item is `Passkey`).
+pub struct ItemStore {
+    pub seam: Seam,
+    pub broken: Vec<Vec<u8>>,
+}
+
+#[async_trait::async_trait]
+impl CredentialStore for ItemStore {
+    type PasskeyItem = SimItem;
+
+    async fn find_credentials(&self, ids: Option<&[PublicKeyCredentialDescriptor]>, rp_id: &str) -> Result<Vec<SimItem>, StatusCode> {
+        let found = self.seam.find_credentials(ids, rp_id).await?;
+        Ok(found
+            .into_iter()
+            .map(|pk| {
+                let broken = self.broken.iter().any(|b| b.as_slice() == pk.credential_id.as_slice());
+                if broken {
+                    lk(&self.seam.world).fire("unconvertible_item_returned");
+                }
+                SimItem { pk, broken }
+            })
+            .collect())
+    }
+
+    async fn save_credential(
+        &mut self,
+        cred: Passkey,
+        user: ctap2::make_credential::PublicKeyCredentialUserEntity,
+        rp: ctap2::make_credential::PublicKeyCredentialRpEntity,
+        options: ctap2::get_assertion::Options,
+    ) -> Result<(), StatusCode> {
+        self.seam.save_credential(cred, user, rp, options).await
+    }
+
+    async fn update_credential(&mut self, cred: Passkey) -> Result<(), StatusCode> {
+        self.seam.update_credential(cred).await
+    }
+
+    async fn get_info(&self) -> StoreInfo {
+        self.seam.get_info().await
+    }
+}
+
+pub struct ItemUser(pub SimUser);
+
+#[async_trait::async_trait]
+impl UserValidationMethod for ItemUser {
+    type PasskeyItem = SimItem;
+
+    async fn check_user<'a>(&self, credential: Option<&'a SimItem>, presence: bool, verification: bool) -> Result<UserCheck, Ctap2Error> {
+        self.0.check_user(credential.map(|i| &i.pk), presence, verification).await
+    }
+
+    fn is_presence_enabled(&self) -> bool {
+        self.0.is_presence_enabled()
+    }
+
+    fn is_verification_enabled(&self) -> Option<bool> {
+        self.0.is_verification_enabled()
+    }
+}
+
+type ItemAuth = Authenticator<ItemStore, ItemUser>;
+
+/// The one actor of an item world: CTAP-level assertions only.
+async fn item_actor_main(task: usize, actor: Actor, mut auth: ItemAuth, world: Shared, out: Arc<Mutex<Vec<OpRecord>>>) {
+    for (i, op) in actor.ops.iter().enumerate() {
+        let (before, invoke_seq) = {
+            let mut w = lk(&world);
+            w.plans[task] = OpPlan { op: i, yields: op.yields.iter().copied().collect(), faults: op.faults.clone(), user: op.user.iter().copied().collect(), counts: [0; 3] };
+            w.log(Ev::Invoke { kind: op_kind_name(&op.kind) });
+            (w.contents.clone(), w.events.last().unwrap().seq)
+        };
+        let polls = Arc::new(Mutex::new(0u32));
+        let mut resolved = Resolved::default();
+        let creds = lk(&world).creds.clone();
+        let result = match &op.kind {
+            OpKind::GetAssertion(s) => {
+                let request = build_ga_request(s, op, &creds, &mut resolved);
+                ga_result(CancelAfter::new(ItemAuth::get_assertion(&mut auth, request), op.cancel_after, polls.clone()).await)
+            }
+            _ => OpResult::Skipped("the item world runs CTAP-level assertions only".into()),
+        };
+        let (after, return_seq) = {
+            let mut w = lk(&world);
+            match &result {
+                OpResult::Cancelled(k) => {
+                    w.fire("cancel");
+                    w.log(Ev::Cancel { polls: *k })
+                }
+                r => w.log(Ev::Return { ok: r.is_ok() }),
+            }
+            (w.contents.clone(), w.events.last().unwrap().seq)
+        };
+        let polls = *lk(&polls);
+        lk(&out).push(OpRecord { actor: task, idx: i, invoke_seq, return_seq, before, after, polls, resolved, result });
+    }
+}
+
 type SimClient = Client<AnyStore, SimUser, PublicSuffixList>;
 type SimAuth = Authenticator<AnyStore, SimUser>;
 
@@ -1460,47 +1614,14 @@ async fn run_op(
             }
         }
         OpKind::GetAssertion(s) => {
-            let allow = s
-                .allow
-                .as_ref()
-                .map(|l| l.iter().map(|r| resolve_id(r, &creds, &s.rp_id)).collect::<Vec<_>>());
-            resolved.allow = allow.clone();
-            let extensions = ctap2::get_assertion::ExtensionInputs {
-                hmac_secret: None,
-                prf: s.prf.as_ref().map(|p| ctap_prf(p, &creds, &s.rp_id, &mut resolved.ctap_by_cred)),
-            }
-            .zip_contents();
-            let request = ctap2::get_assertion::Request {
-                rp_id: s.rp_id.clone(),
-                client_data_hash: s.cdh.clone().into(),
-                allow_list: allow.as_ref().map(|l| descriptors(l, &op.unknown_type, &op.list_transports)),
-                extensions,
-                options: ctap2::get_assertion::Options { rk: s.rk, up: s.up, uv: s.uv },
-                pin_auth: s.pin_auth.then(|| if s.pin_empty { Vec::new() } else { vec![1u8; 16] }.into()),
-                pin_protocol: s.pin_auth.then_some(1),
-            };
+            let request = build_ga_request(s, op, &creds, resolved);
             let auth: &mut SimAuth = client.authenticator_mut();
             let res = if s.via_trait {
                 CancelAfter::new(<SimAuth as Ctap2Api>::get_assertion(auth, request), op.cancel_after, polls).await
             } else {
                 CancelAfter::new(SimAuth::get_assertion(auth, request), op.cancel_after, polls).await
             };
-            match res {
-                Cancellable::Cancelled(k) => OpResult::Cancelled(k),
-                Cancellable::Finished(Err(e)) => OpResult::Ga(Err(serr(e))),
-                Cancellable::Finished(Ok(r)) => OpResult::Ga(Ok(GaOut {
-                    cred_id: r.credential.as_ref().map(|c| c.id.to_vec()),
-                    auth_data: r.auth_data.to_vec(),
-                    signature: r.signature.to_vec(),
-                    user_id: r.user.as_ref().map(|u| u.id.to_vec()),
-                    prf_results: r
-                        .unsigned_extension_outputs
-                        .as_ref()
-                        .and_then(|u| u.prf.as_ref())
-                        .map(|p| ctap_prf_out(&p.results)),
-                    renders: render(&r),
-                })),
-            }
+            ga_result(res)
         }
         OpKind::GetInfo { via_trait } => {
             let auth: &mut SimAuth = client.authenticator_mut();
@@ -1778,6 +1899,32 @@ fn make_backend(c: &Ceremony) -> AnyBackend {
     b
 }
 
+/// the authenticator's own configuration, from the actor
+fn configure<S, U>(mut auth: Authenticator<S, U>, actor: &Actor) -> Authenticator<S, U>
+where
+    S: CredentialStore + Sync,
+    U: UserValidationMethod + Sync,
+{
+    auth.set_make_credentials_with_signature_counter(actor.counter);
+    auth.set_make_credential_id_length(CredentialIdLength::from(actor.id_len));
+    let auth = match actor.transports {
+        0 => auth,
+        6 => auth.transports(vec![webauthn::AuthenticatorTransport::Usb, webauthn::AuthenticatorTransport::Internal, webauthn::AuthenticatorTransport::Usb]),
+        n => auth.transports(transports_of(n).unwrap_or_default()),
+    };
+    match actor.hmac {
+        HmacCfg::None => auth,
+        HmacCfg::UvOnly => {
+            let cfg = HmacSecretConfig::new_with_uv_only();
+            auth.hmac_secret(if actor.hmac_mc { cfg.enable_on_make_credential() } else { cfg })
+        }
+        HmacCfg::WithoutUv => {
+            let cfg = HmacSecretConfig::new_without_uv();
+            auth.hmac_secret(if actor.hmac_mc { cfg.enable_on_make_credential() } else { cfg })
+        }
+    }
+}
+
 pub const MAX_STEPS: u64 = 20_000;
 
 /// Execute one ceremony scenario. Pure function of the scenario and the code under test.
@@ -1809,6 +1956,16 @@ pub fn run_ceremony(c: &Ceremony) -> RunRecord {
     passkey_types::rand::verif_hooks::install(move |buf: &mut [u8]| rng.fill(buf));
 
     let seam = Seam { backend, world: world.clone() };
+    // a store with an item type of its own (one actor, bare topology)
+    let item_world = !c.unconvertible.is_empty() && c.wrap == Wrap::Bare && c.actors.len() == 1;
+    let mut item_store = None;
+    let seam = if item_world {
+        let broken = c.unconvertible.iter().filter_map(|i| c.prelude.get(*i as usize)).map(|p| p.id.clone()).collect();
+        item_store = Some(ItemStore { seam, broken });
+        Seam { backend: AnyBackend::Slot(None), world: world.clone() }
+    } else {
+        seam
+    };
     let mut stores: Vec<AnyStore> = Vec::new();
     match c.wrap {
         Wrap::Bare => stores.push(AnyStore::Bare(seam)),
@@ -1835,6 +1992,14 @@ pub fn run_ceremony(c: &Ceremony) -> RunRecord {
 
     let caught = std::panic::catch_unwind(std::panic::AssertUnwindSafe(|| {
         let mut exec = Exec::new(c.schedule.clone(), MAX_STEPS);
+        if let Some(store) = item_store {
+            let actor = &c.actors[0];
+            let user = ItemUser(SimUser { world: world.clone(), presence_enabled: actor.presence_enabled, verification: actor.verification, actor: 0 });
+            let auth = configure(Authenticator::new(Aaguid::from([0xA5; 16]), store, user), actor);
+            exec.spawn(item_actor_main(0, actor.clone(), auth, world.clone(), out.clone()));
+            let outcome = exec.run();
+            return (outcome, exec.steps, std::mem::take(&mut exec.choices), std::mem::take(&mut exec.trace));
+        }
         for (t, (actor, store)) in c.actors.iter().zip(stores).enumerate() {
             let user = SimUser {
                 world: world.clone(),
@@ -1847,25 +2012,7 @@ pub fn run_ceremony(c: &Ceremony) -> RunRecord {
                 1 => [0; 16],
                 n => [n; 16],
             };
-            let mut auth = Authenticator::new(Aaguid::from(aaguid), store, user);
-            auth.set_make_credentials_with_signature_counter(actor.counter);
-            auth.set_make_credential_id_length(CredentialIdLength::from(actor.id_len));
-            let auth = match actor.transports {
-                0 => auth,
-                6 => auth.transports(vec![webauthn::AuthenticatorTransport::Usb, webauthn::AuthenticatorTransport::Internal, webauthn::AuthenticatorTransport::Usb]),
-                n => auth.transports(transports_of(n).unwrap_or_default()),
-            };
-            let auth = match actor.hmac {
-                HmacCfg::None => auth,
-                HmacCfg::UvOnly => {
-                    let cfg = HmacSecretConfig::new_with_uv_only();
-                    auth.hmac_secret(if actor.hmac_mc { cfg.enable_on_make_credential() } else { cfg })
-                }
-                HmacCfg::WithoutUv => {
-                    let cfg = HmacSecretConfig::new_without_uv();
-                    auth.hmac_secret(if actor.hmac_mc { cfg.enable_on_make_credential() } else { cfg })
-                }
-            };
+            let auth = configure(Authenticator::new(Aaguid::from(aaguid), store, user), actor);
             let client = Client::new(auth).allows_insecure_localhost(actor.allow_localhost);
             let id = exec.spawn(actor_main(t, actor.clone(), client, world.clone(), out.clone()));
             debug_assert_eq!(id, t);
